@@ -18,4 +18,4 @@ def run(ctx):
         ctx.tie("replay", [h, "run", ctx.replay], [drv]); return
     ctx.tie("known-findings+corpus", [h, "run", os.path.join(VERIF, "findings", "C14_F9.case")], [drv])
     n = 2400 if ctx.quick else 80000
-    ctx.tie("policy-differential", [h, "gen", "--seed", str(ctx.seed), "--cases", str(n)], [drv])
+    ctx.tie("policy-differential", [h, "gen", "--seed", str(ctx.seed), "--cases", str(n)], [drv], shrink_with=[h, "run"])
